@@ -1,4 +1,8 @@
 import HbsModel.Registry
+import HbsModel.Lemmas.IfBlock
+import HbsModel.Lemmas.IfElseBlock
+import HbsModel.Lemmas.RenderPlain
+import HbsModel.Props.C01
 import HbsModel.Lemmas.RM
 /-
   C06  Conditional blocks render exactly the one branch selected by truthiness.
@@ -95,5 +99,297 @@ theorem revertChain_step (fuel : Nat) (node : Tmpl) (c : HelperT) (prev : Option
   simp [revertChain, hn]
 
 theorem revertChain_done (fuel : Nat) (prev : Option Tmpl) : revertChain (fuel + 1) none prev = .ok prev := rfl
+
+/-! ### `{{#if v}}A{{/if}}` – at source level -/
+
+/-- a state update that keeps the state quiet is performed as written (the frame it would copy back is already in place) -/
+theorem quiet_modifyAux (rc0 rc : RC) (f : RC → RC) (out : Out) (hq : Quiet rc0 rc) (hf : Quiet rc0 (f rc)) :
+    RM.modifyAux f rc out = .ok () (f rc) out := by
+  rw [RM.modifyAux_apply]
+  have h1 : rc.blocks = (f rc).blocks := by rw [hq.blocks, hf.blocks]
+  have h2 : rc.disableEscape = (f rc).disableEscape := by
+    have a : rc.disableEscape = rc0.disableEscape := by rw [hq]
+    have b : (f rc).disableEscape = rc0.disableEscape := by rw [hf]
+    rw [a, b]
+  have h3 : rc.indentString = (f rc).indentString := by rw [hq.indent, hf.indent]
+  have h4 : rc.pbStack = (f rc).pbStack := by
+    have a : rc.pbStack = rc0.pbStack := by rw [hq]
+    have b : (f rc).pbStack = rc0.pbStack := by rw [hf]
+    rw [a, b]
+  have h5 : rc.pbBinding = (f rc).pbBinding := by
+    have a : rc.pbBinding = rc0.pbBinding := by rw [hq]
+    have b : (f rc).pbBinding = rc0.pbBinding := by rw [hf]
+    rw [a, b]
+  rw [h1, h2, h3, h4, h5]
+
+theorem Quiet.template {rc0 rc : RC} (h : Quiet rc0 rc) : rc.currentTemplate = rc0.currentTemplate := by rw [h]
+
+theorem Quiet.setTemplate {rc0 rc : RC} (h : Quiet rc0 rc) : Quiet rc0 { rc with currentTemplate := rc0.currentTemplate } := by
+  unfold Quiet at *
+  rw [h]
+
+/-- the block element `{{#if v}}A{{/if}}` compiles to writes `A` when `data.v` is truthy and nothing otherwise – and leaves
+    the render state as it was (up to the write flags) -/
+theorem if_block_writes (reg : Registry) (root j : Json) (rc0 : RC) (lc : Nat × Nat)
+    (hb : rc0.blocks = [{}]) (hi : rc0.indentString = none) (hmc : rc0.modifiedCtx = none) (hct : rc0.currentTemplate = none)
+    (hl : assocGet rc0.localHelpers ['i', 'f'] = none) (hr : assocGet reg.helpers ['i', 'f'] = some (.ifH true))
+    (hsafe : Spec.indexSafe root [['v']] = true) (hj : Spec.descend root [['v']] = some j) :
+    WritesText reg root rc0 (.block (PlainText.ifHT (PlainText.ifBody lc))) (if j.truthy false then ['A'] else []) := by
+  intro fuel rc out hq hf
+  have hblocks : rc.blocks = [{}] := by rw [hq.blocks, hb]
+  have hev : evaluate2 root (.relative [.named ['v']] ['v']) rc out = .ok (.context j [['v']]) rc out := by
+    have := C01.navigate_current_path_scope root {} [] ['v'] [] rc out (by simp [getInBlockParams, assocGet]) rfl (by simpa using hsafe)
+    simp only [C01.names, List.map_cons, List.map_nil] at this
+    simp only [evaluate2, RM.bind_def, RM.bnd_apply, RM.get_apply, hblocks, this, C01.blockValue, Spec.descend]
+    simp only [Option.bind]
+    have hj' : (Spec.step root ['v']).bind (fun v' => Spec.descend v' []) = some j := by simpa [Spec.descend] using hj
+    simp [Spec.descend] at hj' ⊢
+    rw [hj']
+  have hmc' : rc.modifiedCtx = none := by rw [hq]; exact hmc
+  have hl' : assocGet rc.localHelpers ['i', 'f'] = none := by rw [hq]; exact hl
+  have hpath : Path.new ['v'] [.named ['v']] = .relative [.named ['v']] ['v'] := rfl
+  -- the helper as evaluated
+  have hh : helperFromTemplate reg root (fuel + 4) (PlainText.ifHT (PlainText.ifBody lc)) rc out
+      = .ok { name := ['i', 'f'], params := [⟨some ['v'], .context j [['v']]⟩], hash := [], template := some (PlainText.ifBody lc),
+              inverse := none, blockParam := none, block := true } rc out := by
+    simp [helperFromTemplate, PlainText.ifHT, PlainText.ifOpen, HelperG.new, expandAsName, expandParams, expandParam, expandHash,
+      RM.bnd_apply, hmc', hpath, hev, Path.raw]
+  -- the state the helper is called in, and the one after the call
+  let rc1 : RC := { rc with contentProduced := false, indentBeforeWrite := rc.indentBeforeWrite || (false && rc.trailingNewline) }
+  have hq1 : Quiet rc0 rc1 := hq.flags _ _ _
+  have hm1 := quiet_modifyAux rc0 rc (fun r => { r with contentProduced := false, indentBeforeWrite := rc.indentBeforeWrite || ((PlainText.ifHT (PlainText.ifBody lc)).indentBeforeWrite && r.trailingNewline) }) out hq (hq.flags _ _ _)
+  have hcall := if_renders_selected reg root (fuel + 3) true { name := ['i', 'f'], params := [⟨some ['v'], .context j [['v']]⟩], hash := [], template := some (PlainText.ifBody lc), inverse := none, blockParam := none, block := true } ⟨some ['v'], .context j [['v']]⟩ [] rfl
+  have hc4 : callHelper reg root (fuel + 4) (.ifH true) { name := ['i', 'f'], params := [⟨some ['v'], .context j [['v']]⟩], hash := [], template := some (PlainText.ifBody lc), inverse := none, blockParam := none, block := true } = _ := hcall
+  simp only [renderElem, renderHelper, RM.bind_def, RM.bnd_apply, hh, RM.get_apply, hl', hr, hm1, hc4]
+  have hz : ((assocGet ([] : List (Str × PJ)) (str "includeZero")).bind fun x => x.json.asBool?).getD false = false := by simp [assocGet]
+  have hjs : ({ relPath := some ['v'], value := SJ.context j [['v']] } : PJ).json = j := rfl
+  have hibw : (PlainText.ifHT (PlainText.ifBody lc)).indentBeforeWrite = false := rfl
+  simp only [hz, hjs, if_true, hibw, Bool.false_and, Bool.or_false]
+  by_cases ht : j.truthy false = true
+  · simp only [ht, if_true]
+    -- the body: one text element, rendered with the current template name handed over and back
+    have hqA : Quiet rc0 { rc with contentProduced := false } := hq.flags _ _ _
+    have hqB : Quiet rc0 { rc with contentProduced := false, currentTemplate := none } := by
+      have := Quiet.setTemplate hqA
+      rw [hct] at this
+      exact this
+    obtain ⟨rc2, out2, hw, hq2, hf2, ht2⟩ := indentAwareWrite_quiet rc0 hi ['A'] _ out hqB hf
+    have hmA := quiet_modifyAux rc0 { rc with contentProduced := false } (fun r => { r with currentTemplate := (PlainText.ifBody lc).name }) out hqA hqB
+    have hq3 : Quiet rc0 { rc2 with currentTemplate := rc.currentTemplate } := by
+      have := Quiet.setTemplate hq2
+      rw [← Quiet.template hq] at this
+      exact this
+    have hmB := quiet_modifyAux rc0 rc2 (fun r => { r with currentTemplate := rc.currentTemplate }) out2 hq2 hq3
+    have hbody : renderTemplate reg root (fuel + 3) (PlainText.ifBody lc) { rc with contentProduced := false } out
+        = .ok () { rc2 with currentTemplate := rc.currentTemplate } out2 := by
+      simp only [renderTemplate, RM.bind_def, RM.bnd_apply, RM.get_apply, hmA]
+      simp only [PlainText.ifBody, Tmpl.empty, Tmpl.pushElement, Tmpl.name, Tmpl.elements, Tmpl.mapping, List.nil_append, renderElems,
+        renderElem, RM.bind_def, RM.bnd_apply, RM.mapErr, hw, RM.pure_def, RM.ret_apply, Option.isNone_none]
+      simp only [↓reduceIte]
+      exact hmB
+    rw [hbody]
+    simp only []
+    have hqG : Quiet rc0 ((fun rc_1 : RC => if rc_1.contentProduced = true then { rc_1 with indentBeforeWrite := rc_1.trailingNewline } else { rc_1 with contentProduced := rc.contentProduced, indentBeforeWrite := rc.indentBeforeWrite }) { rc2 with currentTemplate := rc.currentTemplate }) := by
+      by_cases hcp : rc2.contentProduced = true
+      · simp only [hcp, ↓reduceIte]; exact Quiet.flags hq3 _ _ _
+      · simp only [hcp, ↓reduceIte]; exact Quiet.flags hq3 _ _ _
+    exact ⟨_, _, quiet_modifyAux rc0 _ _ out2 hq3 hqG, hqG, hf2, ht2⟩
+  · simp only [ht, Bool.false_eq_true, if_false]
+    have hqA : Quiet rc0 { rc with contentProduced := false } := hq.flags _ _ _
+    have hqG : Quiet rc0 ((fun rc_1 : RC => if rc_1.contentProduced = true then { rc_1 with indentBeforeWrite := rc_1.trailingNewline } else { rc_1 with contentProduced := rc.contentProduced, indentBeforeWrite := rc.indentBeforeWrite }) { rc with contentProduced := false }) := by
+      simp only [Bool.false_eq_true, ↓reduceIte]; exact Quiet.flags hqA _ _ _
+    exact ⟨_, _, quiet_modifyAux rc0 _ _ out hqA hqG, hqG, hf, by simp⟩
+
+/-- `{{#if v}}A{{/if}}` -/
+abbrev ifBlockSrc : Str := PlainText.ifSrc
+
+/-- **render(L ++ {{#if v}}A{{/if}} ++ R) = L ++ (A when data.v is truthy, nothing otherwise) ++ R** – from the source string to
+    the bytes, for EVERY text `L` that may stand before a tag, EVERY text `R` without `{{` and every data value: the block
+    renders its body exactly when the condition is truthy, and the text around it – whitespace and line breaks next to the
+    block tags included, since neither tag stands alone on its line – is reproduced verbatim.  Through the regenerated grammar
+    (the ten pairs of the block are decided by the kernel with the known-prefix evaluator: the block is ONE element of
+    `template` whatever follows), four iterations of the loop of compile2 (block start, body template, body text, block end,
+    with the standalone-line test at both tags) and the renderer (`renderHelper`, the `if` helper, the body template). -/
+theorem if_block_renders_by_truthiness (r : Registry) (fs : FS) (L R : Str) (data j : Json) (hdev : r.dev = false)
+    (hL : L = [] ∨ PlainText.TextBeforeTag L) (hR : PlainText.noOpen R)
+    (hif : assocGet r.helpers ['i', 'f'] = some (.ifH true))
+    (hsafe : Spec.indexSafe data [['v']] = true) (hj : Spec.descend data [['v']] = some j) :
+    r.renderTemplate fs (L ++ ifBlockSrc ++ R) data = .ok (L ++ (if j.truthy false then ['A'] else []) ++ R) := by
+  unfold Registry.renderTemplate Registry.renderTemplateToWrite Registry.renderTemplateWithContextToWrite
+    Registry.compileForRenderTemplate
+  obtain ⟨m, hcomp⟩ := PlainText.compile_text_if_text L _ _ { preventIndent := r.preventIndent } hL (PlainText.textAfterTag_split R hR)
+  rw [← PlainText.split_ws R] at hcomp
+  rw [hcomp]
+  simp only [Registry.renderResolved, hdev, Bool.not_false, ↓reduceIte]
+  generalize Pest.lineCol (L ++ PlainText.ifSrc ++ R) (L.length + 9) = lc
+  let txt : Str := if j.truthy false then ['A'] else []
+  let ets : List (Elem × Str) := (if L = [] then [] else [(.raw L, L)]) ++ [(.block (PlainText.ifHT (PlainText.ifBody lc)), txt)]
+    ++ (if R = [] then [] else [(.raw R, R)])
+  have hel : (PlainText.leftT L L).elements ++ [Elem.block (PlainText.ifHT (PlainText.ifBody lc))] ++ (if R = [] then [] else [Elem.raw R])
+      = ets.map (·.1) := by
+    simp only [ets]
+    by_cases hLe : L = [] <;> by_cases hRe : R = [] <;> simp [hLe, hRe, PlainText.leftT, Tmpl.empty, Tmpl.elements]
+  have htxt : (ets.map (·.2)).flatten = L ++ txt ++ R := by
+    simp only [ets]
+    by_cases hLe : L = [] <;> by_cases hRe : R = [] <;> simp [hLe, hRe]
+  rw [hel]
+  have hw : ∀ p ∈ ets, WritesText r data { ({ rootTemplate := none } : RC) with currentTemplate := none } p.1 p.2 := by
+    intro p hp
+    simp only [ets, List.mem_append, List.mem_singleton] at hp
+    rcases hp with (hp | rfl) | hp
+    · split at hp
+      · simp at hp
+      · simp at hp; subst hp; exact writes_raw r data _ rfl L
+    · exact if_block_writes r data j _ lc rfl rfl rfl rfl rfl hif hsafe hj
+    · split at hp
+      · simp at hp
+      · simp at hp; subst hp; exact writes_raw r data _ rfl R
+  have hlen : ets.length + 12 ≤ renderFuel := by
+    have h1 : (if L = [] then [] else [((Elem.raw L, L) : Elem × Str)]).length ≤ 1 := by split <;> simp
+    have h2 : (if R = [] then [] else [((Elem.raw R, R) : Elem × Str)]).length ≤ 1 := by split <;> simp
+    simp only [ets, List.length_append, List.length_singleton]
+    have : renderFuel = 4000 := rfl
+    omega
+  have := render_writes_template r data none ets m { rootTemplate := none } hlen hw
+  simp only [Tmpl.name] at this ⊢
+  rw [this, htxt]
+
+/-- non-vacuity: the registry as the crate builds it binds `if` to the `if` helper; a falsy and a truthy condition -/
+example : assocGet Registry.new.helpers ['i', 'f'] = some (.ifH true) ∧ (Json.str []).truthy false = false ∧ (Json.str ['x']).truthy false = true := by
+  refine ⟨by rfl, by decide, by decide⟩
+
+/-! ### `{{#if v}}A{{else}}B{{/if}}` – at source level -/
+
+/-- a body of one text element, rendered from a quiet state: the text is written, the state stays quiet -/
+theorem render_one_text (reg : Registry) (root : Json) (rc0 rcS : RC) (out : Out) (c : Char) (lc : Nat × Nat) (fuel : Nat)
+    (hi : rc0.indentString = none) (hct : rc0.currentTemplate = none) (hq : Quiet rc0 rcS) (hf : out.failAt = none) :
+    ∃ rc2 out2, renderTemplate reg root (fuel + 3) (Tmpl.empty.pushElement (.raw [c]) lc.1 lc.2) rcS out = .ok () rc2 out2
+      ∧ Quiet rc0 rc2 ∧ out2.failAt = none ∧ out2.text = out.text ++ [c] := by
+  have hqB : Quiet rc0 { rcS with currentTemplate := none } := by
+    have := Quiet.setTemplate hq
+    rw [hct] at this
+    exact this
+  obtain ⟨rc2, out2, hw, hq2, hf2, ht2⟩ := indentAwareWrite_quiet rc0 hi [c] _ out hqB hf
+  have hmA := quiet_modifyAux rc0 rcS (fun r => { r with currentTemplate := (Tmpl.empty.pushElement (.raw [c]) lc.1 lc.2).name }) out hq hqB
+  have hq3 : Quiet rc0 { rc2 with currentTemplate := rcS.currentTemplate } := by
+    have := Quiet.setTemplate hq2
+    rw [← Quiet.template hq] at this
+    exact this
+  have hmB := quiet_modifyAux rc0 rc2 (fun r => { r with currentTemplate := rcS.currentTemplate }) out2 hq2 hq3
+  refine ⟨_, out2, ?_, hq3, hf2, ht2⟩
+  simp only [renderTemplate, RM.bind_def, RM.bnd_apply, RM.get_apply, hmA]
+  simp only [Tmpl.empty, Tmpl.pushElement, Tmpl.name, Tmpl.elements, Tmpl.mapping, List.nil_append, renderElems,
+    renderElem, RM.bind_def, RM.bnd_apply, RM.mapErr, hw, RM.pure_def, RM.ret_apply, Option.isNone_none]
+  simp only [↓reduceIte]
+  exact hmB
+
+/-- the block element `{{#if v}}A{{else}}B{{/if}}` compiles to writes `A` when `data.v` is truthy and `B` otherwise: exactly one
+    of the two branches, never both, never none -/
+theorem if_else_block_writes (reg : Registry) (root j : Json) (rc0 : RC) (lcA lcB : Nat × Nat)
+    (hb : rc0.blocks = [{}]) (hi : rc0.indentString = none) (hmc : rc0.modifiedCtx = none) (hct : rc0.currentTemplate = none)
+    (hl : assocGet rc0.localHelpers ['i', 'f'] = none) (hr : assocGet reg.helpers ['i', 'f'] = some (.ifH true))
+    (hsafe : Spec.indexSafe root [['v']] = true) (hj : Spec.descend root [['v']] = some j) :
+    WritesText reg root rc0 (.block (PlainText.ifElseHT (PlainText.ifBody lcA) (PlainText.ieInv lcB)))
+      (if j.truthy false then ['A'] else ['B']) := by
+  intro fuel rc out hq hf
+  have hblocks : rc.blocks = [{}] := by rw [hq.blocks, hb]
+  have hev : evaluate2 root (.relative [.named ['v']] ['v']) rc out = .ok (.context j [['v']]) rc out := by
+    have := C01.navigate_current_path_scope root {} [] ['v'] [] rc out (by simp [getInBlockParams, assocGet]) rfl (by simpa using hsafe)
+    simp only [C01.names, List.map_cons, List.map_nil] at this
+    simp only [evaluate2, RM.bind_def, RM.bnd_apply, RM.get_apply, hblocks, this, C01.blockValue, Spec.descend]
+    simp only [Option.bind]
+    have hj' : (Spec.step root ['v']).bind (fun v' => Spec.descend v' []) = some j := by simpa [Spec.descend] using hj
+    simp [Spec.descend] at hj' ⊢
+    rw [hj']
+  have hmc' : rc.modifiedCtx = none := by rw [hq]; exact hmc
+  have hl' : assocGet rc.localHelpers ['i', 'f'] = none := by rw [hq]; exact hl
+  have hpath : Path.new ['v'] [.named ['v']] = .relative [.named ['v']] ['v'] := rfl
+  have hh : helperFromTemplate reg root (fuel + 4) (PlainText.ifElseHT (PlainText.ifBody lcA) (PlainText.ieInv lcB)) rc out
+      = .ok { name := ['i', 'f'], params := [⟨some ['v'], .context j [['v']]⟩], hash := [], template := some (PlainText.ifBody lcA), inverse := some (PlainText.ieInv lcB), blockParam := none, block := true } rc out := by
+    simp [helperFromTemplate, PlainText.ifElseHT, PlainText.ifOpen, HelperG.new, expandAsName, expandParams, expandParam, expandHash,
+      RM.bnd_apply, hmc', hpath, hev, Path.raw]
+  have hm1 := quiet_modifyAux rc0 rc (fun r => { r with contentProduced := false, indentBeforeWrite := rc.indentBeforeWrite || ((PlainText.ifElseHT (PlainText.ifBody lcA) (PlainText.ieInv lcB)).indentBeforeWrite && r.trailingNewline) }) out hq (hq.flags _ _ _)
+  have hcall := if_renders_selected reg root (fuel + 3) true { name := ['i', 'f'], params := [⟨some ['v'], .context j [['v']]⟩], hash := [], template := some (PlainText.ifBody lcA), inverse := some (PlainText.ieInv lcB), blockParam := none, block := true } ⟨some ['v'], .context j [['v']]⟩ [] rfl
+  have hc4 : callHelper reg root (fuel + 4) (.ifH true) { name := ['i', 'f'], params := [⟨some ['v'], .context j [['v']]⟩], hash := [], template := some (PlainText.ifBody lcA), inverse := some (PlainText.ieInv lcB), blockParam := none, block := true } = _ := hcall
+  simp only [renderElem, renderHelper, RM.bind_def, RM.bnd_apply, hh, RM.get_apply, hl', hr, hm1, hc4]
+  have hz : ((assocGet ([] : List (Str × PJ)) (str "includeZero")).bind fun x => x.json.asBool?).getD false = false := by simp [assocGet]
+  have hjs : ({ relPath := some ['v'], value := SJ.context j [['v']] } : PJ).json = j := rfl
+  have hibw : (PlainText.ifElseHT (PlainText.ifBody lcA) (PlainText.ieInv lcB)).indentBeforeWrite = false := rfl
+  simp only [hz, hjs, if_true, hibw, Bool.false_and, Bool.or_false]
+  have hqA : Quiet rc0 { rc with contentProduced := false } := hq.flags _ _ _
+  have finish : ∀ (rc2 : RC) (out2 : Out) (c : Char), Quiet rc0 rc2 → out2.failAt = none → out2.text = out.text ++ [c] →
+      ∃ rc' out', RM.modifyAux (fun rc_1 : RC => if rc_1.contentProduced = true then { rc_1 with indentBeforeWrite := rc_1.trailingNewline } else { rc_1 with contentProduced := rc.contentProduced, indentBeforeWrite := rc.indentBeforeWrite }) rc2 out2 = .ok () rc' out'
+        ∧ Quiet rc0 rc' ∧ out'.failAt = none ∧ out'.text = out.text ++ [c] := by
+    intro rc2 out2 c hq2 hf2 ht2
+    have hqG : Quiet rc0 ((fun rc_1 : RC => if rc_1.contentProduced = true then { rc_1 with indentBeforeWrite := rc_1.trailingNewline } else { rc_1 with contentProduced := rc.contentProduced, indentBeforeWrite := rc.indentBeforeWrite }) rc2) := by
+      by_cases hcp : rc2.contentProduced = true
+      · simp only [hcp, ↓reduceIte]; exact Quiet.flags hq2 _ _ _
+      · simp only [hcp, ↓reduceIte]; exact Quiet.flags hq2 _ _ _
+    exact ⟨_, _, quiet_modifyAux rc0 _ _ out2 hq2 hqG, hqG, hf2, ht2⟩
+  by_cases ht : j.truthy false = true
+  · simp only [ht, if_true]
+    obtain ⟨rc2, out2, hbody, hq2, hf2, ht2⟩ := render_one_text reg root rc0 { rc with contentProduced := false } out 'A' lcA fuel hi hct hqA hf
+    unfold PlainText.ifBody
+    rw [hbody]
+    exact finish rc2 out2 'A' hq2 hf2 ht2
+  · simp only [ht, Bool.false_eq_true, if_false]
+    obtain ⟨rc2, out2, hbody, hq2, hf2, ht2⟩ := render_one_text reg root rc0 { rc with contentProduced := false } out 'B' lcB fuel hi hct hqA hf
+    unfold PlainText.ieInv
+    rw [hbody]
+    exact finish rc2 out2 'B' hq2 hf2 ht2
+
+/-- `{{#if v}}A{{else}}B{{/if}}` -/
+abbrev ifElseBlockSrc : Str := PlainText.ieSrc
+
+/-- **render(L ++ {{#if v}}A{{else}}B{{/if}} ++ R) = L ++ (A when data.v is truthy, B otherwise) ++ R** – from the source string to the
+    bytes, for EVERY text `L` that may stand before a tag, EVERY text `R` without `{{` and every data value: exactly one of
+    the two branches is rendered, selected by the truthiness of the condition, and the text around the block is reproduced
+    verbatim.  Through the regenerated grammar (the fourteen pairs of the block decided by the kernel), seven iterations of the
+    loop of compile2 (block start, body, `{{else}}`, else branch, block end – with the standalone-line test at all three tags)
+    and the renderer. -/
+theorem if_else_block_renders_one_branch (r : Registry) (fs : FS) (L R : Str) (data j : Json) (hdev : r.dev = false)
+    (hL : L = [] ∨ PlainText.TextBeforeTag L) (hR : PlainText.noOpen R)
+    (hif : assocGet r.helpers ['i', 'f'] = some (.ifH true))
+    (hsafe : Spec.indexSafe data [['v']] = true) (hj : Spec.descend data [['v']] = some j) :
+    r.renderTemplate fs (L ++ ifElseBlockSrc ++ R) data = .ok (L ++ (if j.truthy false then ['A'] else ['B']) ++ R) := by
+  unfold Registry.renderTemplate Registry.renderTemplateToWrite Registry.renderTemplateWithContextToWrite
+    Registry.compileForRenderTemplate
+  obtain ⟨m, hcomp⟩ := PlainText.compile_text_ie_text L _ _ { preventIndent := r.preventIndent } hL (PlainText.textAfterTag_split R hR)
+  rw [← PlainText.split_ws R] at hcomp
+  rw [hcomp]
+  simp only [Registry.renderResolved, hdev, Bool.not_false, ↓reduceIte]
+  generalize Pest.lineCol (L ++ PlainText.ieSrc ++ R) (L.length + 9) = lcA
+  generalize Pest.lineCol (L ++ PlainText.ieSrc ++ R) (L.length + 18) = lcB
+  let txt : Str := if j.truthy false then ['A'] else ['B']
+  let ets : List (Elem × Str) := (if L = [] then [] else [(.raw L, L)]) ++ [(.block (PlainText.ifElseHT (PlainText.ifBody lcA) (PlainText.ieInv lcB)), txt)]
+    ++ (if R = [] then [] else [(.raw R, R)])
+  have hel : (PlainText.leftT L L).elements ++ [Elem.block (PlainText.ifElseHT (PlainText.ifBody lcA) (PlainText.ieInv lcB))] ++ (if R = [] then [] else [Elem.raw R])
+      = ets.map (·.1) := by
+    simp only [ets]
+    by_cases hLe : L = [] <;> by_cases hRe : R = [] <;> simp [hLe, hRe, PlainText.leftT, Tmpl.empty, Tmpl.elements]
+  have htxt : (ets.map (·.2)).flatten = L ++ txt ++ R := by
+    simp only [ets]
+    by_cases hLe : L = [] <;> by_cases hRe : R = [] <;> simp [hLe, hRe]
+  rw [hel]
+  have hw : ∀ p ∈ ets, WritesText r data { ({ rootTemplate := none } : RC) with currentTemplate := none } p.1 p.2 := by
+    intro p hp
+    simp only [ets, List.mem_append, List.mem_singleton] at hp
+    rcases hp with (hp | rfl) | hp
+    · split at hp
+      · simp at hp
+      · simp at hp; subst hp; exact writes_raw r data _ rfl L
+    · exact if_else_block_writes r data j _ lcA lcB rfl rfl rfl rfl rfl hif hsafe hj
+    · split at hp
+      · simp at hp
+      · simp at hp; subst hp; exact writes_raw r data _ rfl R
+  have hlen : ets.length + 12 ≤ renderFuel := by
+    have h1 : (if L = [] then [] else [((Elem.raw L, L) : Elem × Str)]).length ≤ 1 := by split <;> simp
+    have h2 : (if R = [] then [] else [((Elem.raw R, R) : Elem × Str)]).length ≤ 1 := by split <;> simp
+    simp only [ets, List.length_append, List.length_singleton]
+    have : renderFuel = 4000 := rfl
+    omega
+  have := render_writes_template r data none ets m { rootTemplate := none } hlen hw
+  simp only [Tmpl.name] at this ⊢
+  rw [this, htxt]
 
 end Hbs.C06
